@@ -204,10 +204,29 @@ func (p *c10) roundTrip(x *res, item val.Item, ctx *runner.Ctx) {
 			}
 			spec.Indexes = []adapt.IndexSpec{{Name: "gone", Hash: past, HashT: decl}}
 		}
+		// a third of the tables has a LIVE global index over one of the item's (non-empty) string attributes and has been
+		// used before: it held an item under another key, with that attribute, until ClearTable emptied it. The item
+		// comes back whole through the index too
+		live := ""
+		if len(item.Canon())%3 == 1 {
+			for _, a := range attrs {
+				if item[a].K == val.KS && item[a].Str != "" && a != past {
+					live = a
+					spec.Indexes = append(spec.Indexes, adapt.IndexSpec{Name: "live", Hash: a})
+					break
+				}
+			}
+		}
 		cl, _, ds := freshClient(adapter, spec)
 		if ds != nil {
 			x.viol("setup", "create", ds[0].Detail, spec)
 			return
+		}
+		if live != "" {
+			x.r.Counters["tables_cleared_before_with_a_live_index"]++
+			cl.Do(adapt.Op{Kind: adapt.OpPut, Table: spec.Name, Item: val.Item{"h": val.Str("gone"), "r": val.Str("s"), live: val.Str("an earlier value")}})
+			cl.Do(adapt.Op{Kind: adapt.OpPut, Table: spec.Name, Item: val.Item{"h": val.Str("gone"), "r": val.Str("t"), live: item[live]}})
+			cl.Do(adapt.Op{Kind: adapt.OpClearTable, Table: spec.Name})
 		}
 		if past != "" {
 			x.r.Counters["tables_with_a_deleted_index"]++
@@ -255,6 +274,12 @@ func (p *c10) roundTrip(x *res, item val.Item, ctx *runner.Ctx) {
 			{"query", queryOp(spec.Name, "", keyCondEq("h", ":h"), nil, val.Item{":h": val.Str("k")}, false, rrCanon)},
 			{"scan", adapt.Op{Kind: adapt.OpScan, Table: spec.Name}},
 			{"batchget", adapt.Op{Kind: adapt.OpBatchGet, Gets: []adapt.BatchEntry{{Table: spec.Name, Del: key}}}},
+		}
+		if live != "" {
+			reads = append(reads, struct {
+				name string
+				op   adapt.Op
+			}{"scan", adapt.Op{Kind: adapt.OpScan, Table: spec.Name, Index: "live"}})
 		}
 		// the same four reads with a ProjectionExpression that names EVERY top-level attribute of the item, each through
 		// a placeholder (#a, #aa, #aaa ...: every placeholder is a prefix of the next one, the attributes are unrelated):
